@@ -5460,6 +5460,8 @@ class Arc(Curve):
             self.pry = Point(start)
             self.center = Point(start)
             return
+        rx = abs(rx)  # Negative radii act as their absolute values (SVG F.6.6).
+        ry = abs(ry)
         cosr = cos(radians(rotation))
         sinr = sin(radians(rotation))
         dx = (start.real - end.real) / 2
